@@ -9,4 +9,6 @@ cargo build --offline --profile fast --bin vcheck
 cargo build --offline --profile checked --bin vcheck
 cd "$HERE/harness-nostd"
 cargo build --offline --profile fast
+cd "$HERE/harness-nolegacy"
+cargo build --offline --profile fast
 echo "setup ok"
